@@ -210,7 +210,7 @@ func c19Run(c *Ctx) {
 func init() {
 	register(&CheckDef{
 		ID: "C19", Build: "light", Run: c19Run, RunCase: c19RunCase,
-		Rule: "states = the C01 state space embedded up to the Swagger root (cost <= bound at every route; one deeper for Swagger, response, parameter, operation, securityScheme, responses, items, header states through their first route), completed with referable definitions / parameters / responses so that in-document $refs resolve, de-duplicated, and FILTERED by an independent validator (python jsonschema Draft4Validator on the schemas/v2/schema.json of the working tree); for every valid document the re-encoding and the result of a successful ExpandSpec are validated by the same independent validator; non-trivial = document accepted by the validator",
+		Rule:        "states = the C01 state space embedded up to the Swagger root (cost <= bound at every route; one deeper for Swagger, response, parameter, operation, securityScheme, responses, items, header states through their first route), completed with referable definitions / parameters / responses so that in-document $refs resolve, de-duplicated, and FILTERED by an independent validator (python jsonschema Draft4Validator on the schemas/v2/schema.json of the working tree); for every valid document the re-encoding and the result of a successful ExpandSpec are validated by the same independent validator; non-trivial = document accepted by the validator",
 		Assumptions: []string{"python3-vt with jsonschema is the independent validity oracle; the shipped schema's references to the draft-04 meta-schema are served from schemas/jsonschema-draft-04.json", "only in-document references are generated here (multi-document expansion is C02's business)"},
 		MinOutcomes: 2,
 	})
